@@ -288,3 +288,26 @@ for _m, _np in (("SetTimestamp", 1), ("SetObservedTimestamp", 1), ("SetSeverity"
     proofs_rw.append(_p)
 proofs += proofs_rw
 assumed_contracts = {"xc_string_copy": "std::string{string_view}: a copy of the bytes in storage of its own (C++ standard)"}
+
+
+RW_SRCS = ["sdk/src/logs/read_write_log_record.cc", "sdk/src/logs/readable_log_record.cc", "sdk/src/common/global_log_handler.cc", "sdk/src/common/env_variables.cc",
+           "sdk/src/resource/resource.cc", "sdk/src/resource/resource_detector.cc", "sdk/src/version/version.cc"]
+
+
+def refute_rw(mod, proof, violations, ix, workdir, seed):
+    """directed native search on the real ReadWriteLogRecord: every sequence of up to 4 identity / severity / event / attribute setters"""
+    import os, re as _re, subprocess
+    binpath = R.build_native("c13_native", [os.path.join(R.core.HERE, "replay", "c13_native.cc")] + [os.path.join(R.core.REPO, s) for s in RW_SRCS], ["-O1"])
+    full = subprocess.run([binpath, "search"], stdout=subprocess.PIPE, stderr=subprocess.STDOUT, text=True, timeout=300).stdout
+    m = _re.findall(r"^FOUND (.*)$", full, _re.M)
+    if not m:
+        return None
+    args = m[-1].split()
+    r = R.native_check("c13_native", ["c13_native.cc"], args, ["-O1"], repo_sources=RW_SRCS)
+    r["input"] = {"driver_args": args, "meaning": "seq <ops>: T/t SetTraceId(non-zero/zero), S/s SetSpanId, F/f SetTraceFlags(1/0), V SetSeverity, E SetEventId, A/B SetAttribute(k,1/2)",
+                  "found_by": "directed native search (refute mode)"}
+    return r if r["reproduced"] else None
+
+
+for _p in proofs_rw:
+    refuters[_p.name] = refute_rw
